@@ -94,6 +94,7 @@ class ImgGen {
       emit(0x8, 2);
     }
     emit(0x3, sys);                     // LDAC syscall number
+    if (r.chance(1, 10)) byte(0xE, 0);  // a redundant PFIX 0 in front of the OPR
     byte(0xD, 3);                       // OPR SVC
     if (sys == 2 && r.chance(2, 3)) {   // use the value read
       emit(0x0, 1);                     // LDAM 1
@@ -134,7 +135,10 @@ public:
       else if (pick < 63) emit(0x6 + (unsigned)r.below(3), (uint32_t)(int32_t)r.range(-8, 8), extra);          // bare indexed op
       else if (pick < 70) emit(0x9 + (unsigned)r.below(3), (uint32_t)(int32_t)(r.chance(4, 5) ? r.range(0, 12) : r.range(-30, 30)), extra); // branches
       else if (pick < 73) emit(0x9 + (unsigned)r.below(3), anyValue(), extra);
-      else if (pick < 80) byte(0xD, 1 + (unsigned)r.below(2));          // ADD / SUB
+      else if (pick < 80) {                                             // ADD / SUB, now and then behind redundant PFIX 0 bytes
+        if (r.chance(1, 8)) { int n = 1 + (int)r.below(3); for (int q = 0; q < n; q++) byte(0xE, 0); }
+        byte(0xD, 1 + (unsigned)r.below(2));
+      }
       else if (pick < 83) {                                            // computed jump inside the image
         uint32_t t = (uint32_t)r.below(bytes);
         emit(0x4, t); byte(0xD, 0);
